@@ -10,7 +10,7 @@ modes
         (mode, ty, cls) are one orbit.  Every member e is decoded to a real term (a "ring" orbit at int AND at real) and every
         normaliser of its kind is run on it: one "norm" event per (member, normaliser), one "orbit" event per (orbit, normaliser)
         carrying all (x, rhs).  arith_mod / int_mod: replay only the arithmetic (resp. integer) orbits whose class digest is
-        0 modulo it; cap: at most that many members of one orbit (the smallest and a seeded sample).  TLC explores everything
+        0 modulo it; cap: at most that many members of one orbit (the smallest and a seeded sample; propositional orbits: at most 60).  TLC explores everything
         in any case.
   part "comb":   (terms whose digest is 0 modulo comb_mod, and all terms the specification marks `must`)
         every term of spec/C10_Terms.tla (twice: binders named "x", clashing with the free variable x, and binders with fresh
@@ -257,10 +257,14 @@ def norm_items(dump_path, arith_mod, int_mod, seed, cap):
     for (mode, ty, cls), es in sorted(orbits.items(), key=lambda kv: (kv[0][0], kv[0][1], digest(kv[0][2]))):
         okey = digest([mode, ty, cls])
         es = sorted(es, key=lambda e: json.dumps(e))
-        if len(es) > cap:
+        if mode != "arith":
+            cap_ = min(cap, 60)
+        else:
+            cap_ = cap
+        if len(es) > cap_:
             # a huge class (e.g. everything equal to 0): the 5 smallest members and a seeded sample of the others
             es = sorted(es, key=lambda e: (len(json.dumps(e)), json.dumps(e)))
-            es = es[:5] + random.Random("%s/%s" % (seed, okey)).sample(es[5:], cap - 5)
+            es = es[:5] + random.Random("%s/%s" % (seed, okey)).sample(es[5:], cap_ - 5)
         if mode == "arith":
             # orbits with subtraction (ring or truncated) only come from the hand-picked seeds: always replayed
             must = any(has_op(e, ("-", "neg", "o")) for e in es)
